@@ -52,11 +52,9 @@ theorem matchDyn_accepts {pre kind post suffixed target v sl}
       obtain ⟨v', hv, rfl, _⟩ := h
       exact matchCore_accepts hv
   · simp only [hsl, Bool.false_eq_true, if_false] at h
-    split at h
-    · cases h
-    · simp only [Option.map_eq_some_iff, Prod.mk.injEq] at h
-      obtain ⟨v', hv, rfl, _⟩ := h
-      exact matchCore_accepts hv
+    simp only [Option.map_eq_some_iff, Prod.mk.injEq] at h
+    obtain ⟨v', hv, rfl, _⟩ := h
+    exact matchCore_accepts hv
 
 theorem step_accepts {p : Part} {input a rem} (h : step p input = some (a, rem)) :
     AllAccept (dynKinds [p]) a := by
@@ -137,5 +135,178 @@ theorem admitsGroups_of_walkVia {r : Rule} {input vs via} (hw : walkVia via r.pa
       cases ht : walkVia .trailing r.parts input with
       | some vs' => have := walkVia_exclusive hw ht; cases this
       | none => simp [hs, hw]
+
+
+/-! ### `_parse_rule`: the converters line up with the dynamic parts -/
+
+def pendingKinds (p : PState) : List RKind := match p.conv with | some (c, _) => [c.kind] | none => []
+def pendingConvs (p : PState) : List (Str × Conv) := match p.conv with | some (c, n) => [(n, c)] | none => []
+
+theorem emit_kinds (p : PState) (sfx : Bool) : dynKinds [p.emit sfx] = pendingKinds p := by
+  simp only [PState.emit, pendingKinds]
+  cases p.conv with
+  | none => rfl
+  | some cn => rfl
+
+theorem parseToks_kinds : ∀ (toks : List Tok) (p : PState) {parts convs},
+    parseToks toks p = some (parts, convs) → dynKinds parts = convs.map (·.2.kind) := by
+  intro toks
+  induction toks with
+  | nil =>
+    intro p parts convs h
+    simp only [parseToks] at h
+    cases h
+    have hk : ∀ (p' : PState) sfx, p'.conv = p.conv →
+        dynKinds [p'.emit sfx] = (match p.conv with | some (c, n) => [(n, c)] | none => []).map (fun (x : Str × Conv) => x.2.kind) := by
+      intro p' sfx hc
+      rw [emit_kinds, pendingKinds, hc]
+      cases p.conv with
+      | none => rfl
+      | some cn => rfl
+    split
+    · rename_i hs
+      have := hk { p with post := p.post.dropLast } true rfl
+      simp only [hs] at this ⊢
+      rw [show [PState.emit { p with post := p.post.dropLast } true, Part.static []] =
+            [PState.emit { p with post := p.post.dropLast } true] ++ [Part.static []] from rfl, dynKinds_append, this]
+      simp only [dynKinds, List.append_nil]
+      rfl
+    · rename_i hs
+      have := hk p false rfl
+      simp only [hs] at this ⊢
+      exact this
+  | cons t toks ih =>
+    intro p parts convs h
+    cases t with
+    | lit s =>
+      simp only [parseToks] at h
+      split at h <;> exact ih _ h
+    | var c n =>
+      simp only [parseToks] at h
+      split at h
+      · cases h
+      · exact ih _ h
+    | slash =>
+      simp only [parseToks] at h
+      split at h
+      · exact ih _ h
+      · cases hrec : parseToks toks {} with
+        | none => simp [hrec] at h
+        | some pc =>
+          obtain ⟨parts', convs'⟩ := pc
+          simp only [hrec, Option.some.injEq, Prod.mk.injEq] at h
+          obtain ⟨rfl, rfl⟩ := h
+          have := ih _ hrec
+          rw [show p.emit false :: parts' = [p.emit false] ++ parts' from rfl, dynKinds_append, emit_kinds, this,
+            List.map_append]
+          congr 1
+          simp only [pendingKinds]
+          cases p.conv with
+          | none => rfl
+          | some cn => rfl
+
+theorem bindRule_kinds {cfg : MapCfg} {i : Nat} {s : RuleSpec} {r : Rule} (h : bindRule cfg i s = some r) :
+    dynKinds r.parts = r.convs.map (·.2.kind) := by
+  have hdomk : ∀ (toks : List Tok) dp dc,
+      (if toks.isEmpty then some ([Part.static []], []) else parseRule toks) = some (dp, dc) →
+      dynKinds dp = dc.map (fun (x : Str × Conv) => x.2.kind) := by
+    intro toks dp dc h
+    split at h
+    · cases h; rfl
+    · exact parseToks_kinds _ _ h
+  simp only [bindRule] at h
+  split at h
+  · rename_i dp dc pp pc hdom hpath
+    cases h
+    simp only [dynKinds_append, List.map_append]
+    congr 1
+    · exact hdomk _ _ _ hdom
+    · exact parseToks_kinds _ _ hpath
+  · cases h
+
+theorem bindRulesFrom_mem {cfg : MapCfg} : ∀ {specs : List RuleSpec} {i : Nat} {rules : List Rule},
+    bindRulesFrom cfg i specs = some rules → ∀ r ∈ rules, ∃ j s, s ∈ specs ∧ bindRule cfg j s = some r := by
+  intro specs
+  induction specs with
+  | nil => intro i rules h r hr; simp [bindRulesFrom] at h; subst h; cases hr
+  | cons s t ih =>
+    intro i rules h r hr
+    simp only [bindRulesFrom] at h
+    split at h
+    · rename_i r0 rs h0 hrest
+      cases h
+      rcases List.mem_cons.1 hr with rfl | hr
+      · exact ⟨i, s, by simp, h0⟩
+      · obtain ⟨j, s', hs', hb⟩ := ih hrest r hr
+        exact ⟨j, s', List.mem_cons_of_mem _ hs', hb⟩
+    · cases h
+
+/-- what `mkMap` guarantees about the map it returns -/
+structure Built (cfg : MapCfg) (m : RMap) : Prop where
+  cfg_eq : m.cfg = cfg
+  root_eq : m.root = buildRoot m.rules
+  kinds : ∀ r ∈ m.rules, dynKinds r.parts = r.convs.map (·.2.kind)
+
+theorem mkMap_built {cfg : MapCfg} {specs : List RuleSpec} {m : RMap} (h : mkMap cfg specs = some m) : Built cfg m := by
+  simp only [mkMap, Option.map_eq_some_iff] at h
+  obtain ⟨rules, hb, rfl⟩ := h
+  refine ⟨rfl, rfl, ?_⟩
+  intro r hr
+  obtain ⟨j, s, _, hbr⟩ := bindRulesFrom_mem hb r hr
+  exact bindRule_kinds hbr
+
+/-! ### conversions -/
+
+/-- the hypothesis under which NotFound / 405 are exact: each converter's `to_python` accepts every
+text its regex accepts (F03 is the complement) -/
+def ConvOK (rules : List Rule) : Prop :=
+  ∀ r ∈ rules, ∀ nc ∈ r.convs, ∀ s, regexAccepts nc.2 s = true → (toPython nc.2 s).isSome = true
+
+theorem convertValues_isSome : ∀ {convs : List (Str × Conv)} {vs : List Str},
+    AllAccept (convs.map (·.2.kind)) vs →
+    (∀ nc ∈ convs, ∀ s, regexAccepts nc.2 s = true → (toPython nc.2 s).isSome = true) →
+    (convertValues convs vs).isSome = true := by
+  intro convs
+  induction convs with
+  | nil => intro vs _ _; cases vs <;> rfl
+  | cons nc t ih =>
+    intro vs hacc hok
+    obtain ⟨n, c⟩ := nc
+    cases vs with
+    | nil => exact hacc.elim
+    | cons v vs =>
+      obtain ⟨hv, hrest⟩ := hacc
+      simp only [convertValues]
+      have := hok (n, c) (by simp) v hv
+      obtain ⟨x, hx⟩ := Option.isSome_iff_exists.1 this
+      simp only [hx]
+      have := ih hrest (fun nc hnc => hok nc (List.mem_cons_of_mem _ hnc))
+      obtain ⟨y, hy⟩ := Option.isSome_iff_exists.1 this
+      simp [hy]
+
+/-- converters without `fixed_digits` / `min` / `max` convert everything (a fortiori what their
+regex accepts): string, any, uuid, path, float, plain int -/
+theorem Conv.total_ok {c : Conv} (h : c.total = true) (s : Str) : (toPython c s).isSome = true := by
+  cases c with
+  | string mn mx ln => rfl
+  | any items => rfl
+  | uuid => rfl
+  | path => rfl
+  | int fixed sg mn mx =>
+    simp only [Conv.total, Bool.and_eq_true, beq_iff_eq, Option.isNone_iff_eq_none] at h
+    obtain ⟨⟨hf, hmn⟩, hmx⟩ := h
+    subst hf hmn hmx
+    simp [toPython]
+  | float sg mn mx =>
+    simp only [Conv.total, Bool.and_eq_true, Option.isNone_iff_eq_none] at h
+    obtain ⟨hmn, hmx⟩ := h
+    subst hmn hmx
+    simp [toPython]
+
+theorem convOK_of_total {rules : List Rule} (h : ∀ r ∈ rules, r.convTotal = true) : ConvOK rules := by
+  intro r hr nc hnc s _
+  have := h r hr
+  simp only [Rule.convTotal, List.all_eq_true] at this
+  exact Conv.total_ok (this nc hnc) s
 
 end Wz.Routing
